@@ -46,6 +46,7 @@ int vnaproperty_import_yaml_from_file(vnaproperty_t **rootptr, FILE *fp,
     yaml_parser_t parser;
     yaml_document_t document;
     bool delete_document = false;
+    bool delete_parser = false;
     yaml_node_t *root;
 
     (void)memset((void *)&vyml, 0, sizeof(vyml));
@@ -54,6 +55,7 @@ int vnaproperty_import_yaml_from_file(vnaproperty_t **rootptr, FILE *fp,
     vyml.vyml_error_arg = error_arg;
 
     yaml_parser_initialize(&parser);
+    delete_parser = true;
     yaml_parser_set_input_file(&parser, fp);
     if (!yaml_parser_load(&parser, &document)) {
 	_vnaproperty_yaml_error(&vyml, VNAERR_SYNTAX, "%s (line %ld) error: %s",
@@ -72,11 +74,15 @@ int vnaproperty_import_yaml_from_file(vnaproperty_t **rootptr, FILE *fp,
 	goto error;
     }
     yaml_document_delete(&document);
+    yaml_parser_delete(&parser);
     return 0;
 
 error:
     if (delete_document) {
 	yaml_document_delete(&document);
+    }
+    if (delete_parser) {
+	yaml_parser_delete(&parser);
     }
     return -1;
 }
